@@ -201,13 +201,16 @@ def last_att_class(s):
 
 
 PROFILE = {
+    'client_flavours': ['plain', 'plain', 'plain', 'plain', 'jsonp', 'gzip', 'jsonp+gzip'],
     'weights': {'open': 3, 'poll': 4, 'post': 1, 'probe_step': 10, 'upg_connect': 1, 'ws_send': 2,
                 'ws_close': 2, 'ws_fail': 1, 'pong': 1, 'app_send': 5, 'advance': 2},
     'max_sessions': 3,
     'packet_kinds': [('msg', 4), ('pong', 1)],
     'post_modes': [('pkts', 1)],
     'declared_delta': [0],
-    'config': {'transports': st.sampled_from([None, None, None, ['polling', 'websocket'],
+    'config': {'http_compression': st.sampled_from([True, False]),
+               'compression_threshold': st.sampled_from([0, 1024]),
+               'transports': st.sampled_from([None, None, None, ['polling', 'websocket'],
                                               ['polling'], ['websocket']]),
                'allow_upgrades': st.sampled_from([True, True, True, False]),
                'max_http_buffer_size': st.sampled_from([1000000, 1000000, 100]),
